@@ -152,6 +152,24 @@ def state_fix(r, cs):
     return (g, p, o, held)
 
 
+def history_oracle(ctx, names, cs, act, kind, val, log, tape):
+    """under the full chain, after a history (same python objects carried along, public grid edits in between): wherever the agent ends,
+    it is its own cell, a neighbouring cell, or a telepod whose colour is the colour of a telepod it stood on / stepped onto"""
+    if kind != 'ok':
+        return
+    g, p, o, held = cs
+    g2, p2, o2, held2 = val
+    h, w = gen.shape_of(g2)
+    around = [p] + [(p[0] + dy, p[1] + dx) for dy, dx in ((-1, 0), (1, 0), (0, -1), (0, 1)) if 0 <= p[0] + dy < h and 0 <= p[1] + dx < w]
+    if p2 in around:
+        return
+    case = tsuite.case_dict(names, cs, act)
+    if g2[p2[0]][p2[1]][0] != TP:
+        ctx.violation(f'the agent was sent to {p2}, which holds no telepod', case)
+    elif not any(g2[c[0]][c[1]][0] == TP and g2[c[0]][c[1]][2] == g2[p2[0]][p2[1]][2] for c in around):
+        ctx.violation(f'the agent was sent to the telepod at {p2} without having been on a telepod of that colour', case)
+
+
 def cases(ctx):
     yield from tsuite.corpus()
     n = 800 if ctx.tier == 'quick' else 8000
@@ -162,9 +180,10 @@ def cases(ctx):
 def run(ctx):
     ctx.rule = ('corpus; random obstacle / telepod layouts with recorded draws (result + draw log vs model); COMPLETE outcome trees of the real '
                 'code for all obstacle layouts (1-3 obstacles) and telepod layouts on grids up to 3x3, compared with the model\'s leaves and '
-                'checked against the rules (each free neighbour possible; stay only when none); non-trivial = a draw happened / tree has >1 leaf')
+                'checked against the rules (each free neighbour possible; stay only when none); histories of steps on ONE carried state object with public grid edits (swap / assign, telepods preferred) in between; non-trivial = a draw happened / tree has >1 leaf')
     tsuite.run_cases(ctx, cases(ctx), oracle, nontrivial=lambda names, cs, act, kind, val: kind != 'ok' or val != cs)
     tsuite.run_trees(ctx, small_layouts(ctx), tree_oracle)
+    tsuite.run_histories(ctx, 250 if ctx.tier == 'quick' else 2500, history_oracle)
     ctx.exhaustive = False
     ctx.notes['exhaustive_part'] = 'complete outcome trees (all resolutions of every random choice) for the small layouts listed in rule'
 
